@@ -7,7 +7,7 @@ ASSUMPTIONS = []
 EXPLANATION = ("finalisation ledger (destruct/dealloc counted per managed object) asserted over the collector's sweep for an ARBITRARY marking, explicit del (GC_Rem), and the raw-object paths "
                "(del_raw of String / containers): every unmarked non-root registered object is finalised exactly once, then released exactly once; marked and root objects are untouched")
 OBLIGATIONS = (
-    pick("C17", r"gc\.(sweep\.noown|rem_pending|rem\.home|set\.home0)|alloc_layer", tiers=None)
+    pick("C17", r"gc\.(sweep\.noown|rem_pending|rem\.home|rem\.stopped|set\.home0)|alloc_layer", tiers=None)
     + pick("C16", r"string\.(concat|rem)\.s3a2", tiers=("quick", "thorough"))
     + pick("C02", r"table\.del\.ns5", tiers=("quick", "thorough"))
     + pick("C04", r"array\.del\.n[23]", tiers=("quick", "thorough"))
